@@ -32,6 +32,7 @@ import (
 
 	"github.com/obolnetwork/charon/core"
 	"github.com/obolnetwork/charon/core/aggsigdb"
+	"github.com/obolnetwork/charon/core/bcast"
 	cqbft "github.com/obolnetwork/charon/core/consensus/qbft"
 	pbv1 "github.com/obolnetwork/charon/core/corepb/v1"
 	"github.com/obolnetwork/charon/core/dutydb"
@@ -52,7 +53,7 @@ import (
 func TestMain(m *testing.M) { vstat.Main(m) }
 
 const rule = "n in 3..5 (7 in thorough) real node stacks wired by core.Wire over memnet in a synctest bubble, threshold ceil(2n/3), 1-2 validators; duties: attester (consensus path), sync message and exit (no consensus); per-node candidate attestation data from 1-3 variants, drawn start order and lateness, up to f crashed nodes, up to f nodes that additionally send (per recipient) partial signatures made with their own share over drawn variants, event sequence of deliver / drop / duplicate of consensus and partial-signature frames and clock advances, then a fair drain; " +
-	"oracle over every object seen at any node's Broadcaster.Broadcast or AggSigDB.Store: its signature verifies under the validator's group key for the specsign signing root of its own content, and all objects of one (duty, validator) have the same signing root; " +
+	"oracle over every object seen at any node's Broadcaster.Broadcast or AggSigDB.Store and every object the node's production broadcaster submits to its beacon node (attributed to the validator named inside the object): its signature verifies under the validator's group key for the specsign signing root of its own content, and all objects of one (duty, validator) have the same signing root; " +
 	"non-trivial = >=2 distinct candidate variants were proposed and >=1 aggregate was published; distinct by (n, variants, faults, published roots)"
 
 func nodeKey(i int) *k1.PrivateKey {
@@ -333,6 +334,7 @@ func runCase(rt *rapid.T, maxN int) {
 	rootCtx, cancelAll := context.WithCancel(context.Background())
 	var mu sync.Mutex
 	var pubs []published
+	var badSubmits []string // objects handed to a beacon node that cannot be attributed to a cluster validator
 	var decided []decision
 	var wg sync.WaitGroup
 	goFn := func(fn func()) {
@@ -442,7 +444,32 @@ func runCase(rt *rapid.T, maxN int) {
 			proposed[d.String()+string(b)] = true
 			mu.Unlock()
 		}
-		core.Wire(nd.sched, tapFetch{fetch, proposedRec}, cons, tapDutyDB{ddb, decidedRec}, vapi, psdb, psex, agg, tapAggDB{asdb, rec("aggsigdb")}, tapBcast{rec("broadcast")})
+		// the production broadcaster behind the tap: what it submits to the node's beacon node is the
+		// "object handed to the beacon node" of the property
+		sbn := submitBN{BN: bn,
+			byIndex: func(idx eth2p0.ValidatorIndex) (core.PubKey, bool) {
+				for _, v := range vals {
+					if v.index == idx {
+						return v.corePub, true
+					}
+				}
+				return "", false
+			},
+			rec: func(d core.Duty, pk core.PubKey, data core.SignedData) {
+				c, err := data.Clone()
+				must(err)
+				mu.Lock()
+				pubs = append(pubs, published{i, "beacon_node", d, pk, c})
+				mu.Unlock()
+			},
+			bad: func(what string) {
+				mu.Lock()
+				badSubmits = append(badSubmits, fmt.Sprintf("node %d: %s", i, what))
+				mu.Unlock()
+			}}
+		prodBcast, err := bcast.New(ctx, sbn)
+		must(err)
+		core.Wire(nd.sched, tapFetch{fetch, proposedRec}, cons, tapDutyDB{ddb, decidedRec}, vapi, psdb, psex, agg, tapAggDB{asdb, rec("aggsigdb")}, chainBcast{rec("broadcast"), prodBcast})
 		nd.vapi = vapi
 	}
 
@@ -804,7 +831,7 @@ func runCase(rt *rapid.T, maxN int) {
 			logf("byz(%d,%s)", b, d.Type)
 		}
 		synctest.Wait()
-		checkPublished(rt, bn, vals, &mu, &pubs, trace)
+		checkPublished(rt, bn, vals, &mu, &pubs, &badSubmits, trace)
 	}
 	// fair drain: everybody starts every duty, all frames are delivered, time advances
 	for i := 0; i < n; i++ {
@@ -824,7 +851,7 @@ func runCase(rt *rapid.T, maxN int) {
 			break
 		}
 	}
-	checkPublished(rt, bn, vals, &mu, &pubs, trace)
+	checkPublished(rt, bn, vals, &mu, &pubs, &badSubmits, trace)
 
 	// consensus component level: what the nodes' duty stores were handed on decision is identical on
 	// every node and is exactly one of the candidate sets that were proposed (the decided hash's payload)
@@ -849,12 +876,19 @@ func runCase(rt *rapid.T, maxN int) {
 	nPub := len(pubs)
 	roots := map[string]bool{}
 	dutiesPublished := map[core.DutyType]bool{}
+	atBN := map[core.DutyType]int{}
 	for _, p := range pubs {
 		r, _ := specsign.SigningRoot(bn, p.data)
 		roots[fmt.Sprintf("%v/%s/%x", p.duty, p.pubkey[:10], r[:6])] = true
 		dutiesPublished[p.duty.Type] = true
+		if p.where == "beacon_node" {
+			atBN[p.duty.Type]++
+		}
 	}
 	mu.Unlock()
+	for ty, c := range atBN {
+		vstat.Count("objects_handed_to_beacon_node:"+ty.String(), int64(c))
+	}
 	distinctVariants := map[byte]bool{}
 	for _, v := range nodeVariant {
 		distinctVariants[v] = true
@@ -906,10 +940,14 @@ func indexOf(ids []peer.ID, p peer.ID) int {
 }
 
 // checkPublished evaluates the oracle over everything published so far.
-func checkPublished(rt *rapid.T, bn *fakebn.BN, vals []*validator, mu *sync.Mutex, pubs *[]published, trace []string) {
+func checkPublished(rt *rapid.T, bn *fakebn.BN, vals []*validator, mu *sync.Mutex, pubs *[]published, badSubmits *[]string, trace []string) {
 	mu.Lock()
 	list := append([]published{}, (*pubs)...)
+	bad := append([]string{}, (*badSubmits)...)
 	mu.Unlock()
+	if len(bad) > 0 {
+		rt.Fatalf("INVALID OBJECT HANDED TO THE BEACON NODE: %s\n%s", bad[0], strings.Join(trace, "\n"))
+	}
 	type key struct {
 		duty core.Duty
 		pk   core.PubKey
